@@ -26,6 +26,15 @@ def edits_for(d, idx):
         out.append({"k": "remove-last-out", "j": no, "f": ""})
     if ni >= 2 and idx != ni - 1:
         out.append({"k": "remove-last-in", "j": ni, "f": ""})
+    # reordering: two different outputs, or two inputs other than the signed one, exchange places
+    for a in range(1, no + 1):
+        for b in range(a + 1, no + 1):
+            if (d["vout"][a - 1]["value"], d["vout"][a - 1]["script"]) != (d["vout"][b - 1]["value"], d["vout"][b - 1]["script"]):
+                out.append({"k": "swap-out", "j": a, "f": "", "j2": b})
+    for a in range(1, ni + 1):
+        for b in range(a + 1, ni + 1):
+            if idx + 1 not in (a, b) and (d["vin"][a - 1]["hash"], d["vin"][a - 1]["n"]) != (d["vin"][b - 1]["hash"], d["vin"][b - 1]["n"]):
+                out.append({"k": "swap-in", "j": a, "f": "", "j2": b})
     return out
 
 
@@ -56,6 +65,10 @@ def apply_edit(d, e, r):
         d["vin"].append({"hash": gen.rbytes(r, 32), "n": 0, "script": b"", "seq": 0xffffffff})
     elif k == "append-out":
         d["vout"].append({"value": 5, "script": b"\x51"})
+    elif k == "swap-out":
+        d["vout"][e["j"] - 1], d["vout"][e["j2"] - 1] = d["vout"][e["j2"] - 1], d["vout"][e["j"] - 1]
+    elif k == "swap-in":
+        d["vin"][e["j"] - 1], d["vin"][e["j2"] - 1] = d["vin"][e["j2"] - 1], d["vin"][e["j"] - 1]
     elif k == "remove-last-out":
         d["vout"].pop()
     elif k == "remove-last-in":
@@ -126,7 +139,7 @@ def drive(tier):
             else:
                 # the discriminating edits first: same-index output, first output, another input's sequence / outpoint
                 pri = [e for e in alle if (e["k"] == "out" and e["f"] == "value" and e["j"] in (idx + 1, 1)) or
-                       (e["k"] == "in" and e["j"] != idx + 1 and e["f"] in ("seq", "prevout")) or e["k"] in ("append-out", "duplicate-sig")]
+                       (e["k"] == "in" and e["j"] != idx + 1 and e["f"] in ("seq", "prevout")) or e["k"] in ("append-out", "duplicate-sig", "swap-out", "swap-in")]
                 chosen = [alle[0], alle[1]] + r.sample(pri, min(3, len(pri))) + r.sample(alle[2:], 1)
             for e in chosen:
                 n_hist += 1
